@@ -32,7 +32,8 @@ vars == <<phase, req, reply, result>>
 
 (* request variants: signing hash algorithm trusted or deprecated (SHA-1); extension of signatures with / without an old calendar chain, target *)
 (* (the SDK itself adds the requested level to the first level correction of the reply, so a reply cannot carry a "lower level") *)
-SignReqs == {[kind |-> "sign", alg |-> a, level |-> l, api |-> p] : a \in {"sha256", "sha512", "sha1"}, l \in {0, 3, 250}, p \in {"aggregated", "create", "async"}}
+(* api: KSI_Signature_signAggregated / KSI_createSignature over the blocking TCP client, the async service, signAggregated over the HTTP client *)
+SignReqs == {[kind |-> "sign", alg |-> a, level |-> l, api |-> p] : a \in {"sha256", "sha512", "sha1"}, l \in {0, 3, 250}, p \in {"aggregated", "create", "async", "http"}}
             \ {x \in [kind : {"sign"}, alg : {"sha256", "sha512", "sha1"}, level : {3, 250}, api : {"create"}] : TRUE}
 (* targets: none (head), the signature's old publication time, the aggregation time itself, later, earlier, a supplied publication record *)
 (* pubrecBad: a supplied publication record with the requested time but a hash that is not the calendar root at that time *)
@@ -47,7 +48,7 @@ Init == /\ phase = "idle" /\ reply = [what |-> "-"] /\ result = "-"
 (* the blocking interface refuses an untrusted (deprecated) input algorithm before anything is sent; the asynchronous one sends *)
 (* the request, but a signature over a deprecated input algorithm never passes internal verification today                      *)
 (* an extension to a time before the aggregation time is not a meaningful request and never succeeds  *)
-RefusedLocally(r) == (r.kind = "sign" /\ r.api \in {"aggregated", "create"} /\ r.alg = "sha1")
+RefusedLocally(r) == (r.kind = "sign" /\ r.api \in {"aggregated", "create", "http"} /\ r.alg = "sha1")
 Send == /\ phase = "idle"
         /\ IF RefusedLocally(req) THEN phase' = "done" /\ result' = "error" ELSE phase' = "sent" /\ UNCHANGED result
         /\ UNCHANGED <<req, reply>>
